@@ -58,6 +58,17 @@ Theorem C14_refusal_changes_nothing : forall c o p e, exitc c o p = ExRefused ->
 Proof. exact refused_only_lock_log. Qed.
 Print Assumptions C14_refusal_changes_nothing.
 
+(* the empty-disk rule, exactly: inputs are the equal / move / restore / remove / change counters of the disk; the numbers of new
+   files and of files recognised as copies of another disk's file are not inputs *)
+Theorem C14_empty_rule : forall d, empty_trigger_disk d = true <->
+  ds_equal d = 0 /\ ds_move d = 0 /\ ds_restore d = 0 /\ (ds_remove d <> 0 \/ ds_change d <> 0).
+Proof. exact empty_trigger_disk_iff. Qed.
+Print Assumptions C14_empty_rule.
+Theorem C14_empty_rule_ignores_new_files : forall e m r rm ch i1 c1 i2 c2 z1 z2,
+  empty_trigger_disk (mkDS e m r rm ch i1 c1 z1) = empty_trigger_disk (mkDS e m r rm ch i2 c2 z2).
+Proof. exact empty_trigger_ignores_new_files. Qed.
+Print Assumptions C14_empty_rule_ignores_new_files.
+
 (* the lock: held by another command, every command that takes the lock is refused at once *)
 Theorem C14_lock_held_refuses : forall c o p, opts_compatible c o = true -> p_conf_ok p = true ->
   skips_lock c o = false -> p_lock_free p = false -> run c o p = (log_eff o ++ [WLock], ExRefused).
